@@ -302,3 +302,54 @@ def _worker_tail(args):
             import traceback
             out.append({"id": case["id"], "error": traceback.format_exc()[-2000:]})
     return out
+
+
+def replay_orders(case, seed):
+    """C09 at the structural level: fix and update are both pending; approving fix then update, update then fix, or
+    both at once (each session starting from what the previous one wrote) must end with the same program"""
+    from . import inline_driver
+    rng = random.Random("%s|%s|orders" % (case["id"], seed))
+    g = RA.Gamma(rng, case["tm"], case["v"])
+    text = RA.render(case["tm"], case["v"], g)
+    finals = {}
+    mism = []
+    for name, seq in (("fix,update", [["fix", "update"]]), ("fix;update", [["fix"], ["update"]]), ("update;fix", [["update"], ["fix"]])):
+        t = text
+        for flags in seq:
+            obs = inline_driver.run_session({"test_case.py": t}, flags)
+            if obs.get("finish_error") or obs.get("import_error"):
+                mism.append({"clause": "finish", "props": ["C18"], "run": case["id"], "A": flags,
+                             "detail": (obs.get("finish_error") or obs.get("import_error"))[:2]})
+                return mism, {"atoms": g.atoms}, text, None
+            t = obs["files"]["test_case.py"]
+        try:
+            finals[name] = (ast.dump(ast.parse(t)), t)
+        except SyntaxError as e:
+            mism.append({"clause": "syntax", "props": ["C03"], "run": case["id"], "A": name, "detail": str(e)})
+            return mism, {"atoms": g.atoms}, text, t
+    if len({d for d, _ in finals.values()}) > 1:
+        def arg(t):
+            try:
+                return inline_driver.snapshot_args(t)[0][2]
+            except Exception:  # noqa
+                return None
+        mism.append({"clause": "order-matters", "props": ["C09"], "run": case["id"], "A": ["fix", "update"],
+                     "detail": {k: arg(t) for k, (_, t) in finals.items()}})
+    return mism, {"atoms": g.atoms, "class_kind": g.class_kind}, text, finals["fix,update"][1]
+
+
+def _worker_orders(args):
+    cases, seed = args[0], args[1]
+    import contextlib
+    import io
+    out = []
+    for case in cases:
+        try:
+            with contextlib.redirect_stderr(io.StringIO()):
+                mism, info, text, new_text = replay_orders(case, seed)
+            out.append({"id": case["id"], "mism": mism, "info": info, "text": text if mism else None,
+                        "new": new_text if mism else None})
+        except Exception:  # noqa
+            import traceback
+            out.append({"id": case["id"], "error": traceback.format_exc()[-2000:]})
+    return out
